@@ -53,6 +53,27 @@ WORKLOADS = [
     ('tilde', ['passwd %s %s' % (hx(b'bob'), hx(b'/home/bob'))], ['tilde ' + hx(b'~bob/x'), 'tilde ' + hx(b'plain'), 'tilde ' + hx(b'~nouser')], True),
     ('validate', [STATE], ['validate 0 %s 0' % hx(b'sec|a'), 'validate2 0 %s 0' % hx(b'm|a'), 'printfunc 0 %s 0' % hx(b'i')], True),
 ]
+# the same setter workloads on options that are no longer pristine, with the tree dumped around every call (clause: a call
+# that reports failure and leaves every value as it was leaves the markers as they were too)
+NONPRISTINE = [STATE, 'setlist 0 736c str %s %s' % (hx(b'alpha'), hx(b'beta')), 'setint 0 69 3 0', 'setstr 0 73 %s 0' % hx(b'old'),
+               'addlist 0 %s str %s' % (hx(b't=one|l'), hx(b'v'))]
+
+
+def traced(ops):
+    out = ['dump 0']
+    for o in ops:
+        out += [o, 'dump 0']
+    return out
+
+
+WORKLOADS += [
+    ('lists-traced', NONPRISTINE, traced(['setlist 0 736c str %s %s' % (hx(b'x'), hx(b'y')), 'setstr 0 736c %s 1' % hx(b'patched'), 'addlist 0 736c str %s' % hx(b'z'),
+                                          'setlist 0 %s str %s' % (hx(b't=one|l'), hx(b'w')), 'setstr 0 %s %s 0' % (hx(b't=one|l'), hx(b'u'))]), True),
+    ('setters-traced', NONPRISTINE, traced(['setstr 0 73 %s 0' % hx(b'new'), 'setint 0 69 9 0', 'setmulti 0 736c %s %s' % (hx(b'p'), hx(b'q')), 'setstr 0 736c %s 0' % hx(b'r'),
+                                            'setopt 0 736c %s' % hx(b'elem'), 'setstr 0 736c %s 1' % hx(b's2'), 'setcomment 0 736c %s' % hx(b'c'), 'setstr 0 736c %s 0' % hx(b's3')]), True),
+    ('tilde-searchpath', ['passwd %s %s' % (hx(b'bob'), hx(b'@R/home/bob')), 'file %s file %s' % (hx(b'home/bob/dir/f.conf'), hx(b'i = 4\n'))],
+     ['searchpath 0 ' + hx(b'~bob/dir'), 'lookup 0 ' + hx(b'f.conf'), 'tilde ' + hx(b'~bob/dir/f.conf')], True),
+]
 AFTER = ['dump 0', 'print 0 0', 'parse_buf 0 ' + hx(b'i = 1\nm { a = 2 }\nsl += {k}\n'), 'dump 0', 'free 0', 'live']
 KMAX = 70
 
@@ -169,11 +190,20 @@ def cross_oracle(scns, impl):
         # a lookup answers as without the fault or reports that it found nothing; never something else
         for j in range(f, a - 1):
             cmd = s.lines[j].split()[0]
-            if cmd in ('getsec', 'getopt', 'size') and j < len(il) and il[j] != b[j]:
+            if cmd in ('getsec', 'getopt', 'size', 'tilde', 'lookup') and j < len(il) and il[j] != b[j]:
                 strip = lambda l: re.sub(r' diags=\[[^\]]*\]', '', l)
-                if strip(il[j]) != strip(b[j]) and not re.search(r'target=null|n=0\b|rc=-1', il[j]):
+                if strip(il[j]) != strip(b[j]) and not re.search(r'target=null|n=0\b|rc=-1|res=-( |$)', il[j]):
                     out.append((s.id, 'oom:wrong-lookup:' + s.meta['workload'], '%s: with allocation #%d failing `%s` answers %s (fault-free: %s)' % (
                         s.id, s.meta['k'], s.lines[j][:60], il[j][:120], b[j][:120])))
+                    break
+        # a call that reports failure and leaves every value as it was leaves the markers (flags) as they were too
+        vals = lambda d: re.sub(r'\(opt (\S+) (\S+) (\d+) \d \d \d ', r'(opt \1 \2 \3 ? ? ? ', d)
+        for j in range(f + 1, a - 2):
+            if s.lines[j - 1] == 'dump 0' and s.lines[j + 1] == 'dump 0' and j + 1 < len(il) and re.search(r'rc=(-1|null|1) ', il[j] + ' '):
+                if il[j - 1] != il[j + 1] and vals(il[j - 1]) == vals(il[j + 1]):
+                    i = next((i for i, (x, y) in enumerate(zip(il[j - 1], il[j + 1])) if x != y), 0)
+                    out.append((s.id, 'oom:failed-call-left-markers:' + s.meta['workload'], '%s: with allocation #%d failing `%s` reports failure and changes no value, but a marker changed near\n  %s\n  %s' % (
+                        s.id, s.meta['k'], s.lines[j][:60], il[j - 1][max(0, i - 100):i + 40], il[j + 1][max(0, i - 100):i + 40])))
                     break
         if il[f:a - 1] == b[f:a - 1] and il[a] != b[a]:
             i = next((i for i, (x, y) in enumerate(zip(il[a], b[a])) if x != y), 0)
